@@ -17,6 +17,7 @@ func factsExtra(ctx *Ctx, b *strings.Builder) {
 	lockShape(ctx, b)
 	lockFacts(ctx, b)
 	poolMutexSpans(ctx, b)
+	claimFacts(ctx, b)
 	factsMore(ctx, b)
 }
 
